@@ -81,3 +81,42 @@ Definition C07_seamless_num : Prop :=
                (snd res = JNil ->
                   rev (cs_stack c') = from_num start merged \/
                   from_num start (rev (cs_stack c')) = from_num start canon).
+
+(* ------------------------------------------------------------------ from a cursor, out of the files *)
+
+(* The consumer state at the cursor, as in C06 and in C07_seamless_full: above the cursor-LIB block L it holds
+   hc (on canon) followed by hf (pending forked blocks); for an Undo cursor the undone block X sits on top and
+   is not held.  The forked blocks (and X when it is off canon) are in the forked-blocks store. *)
+Definition cursor_state (canon forked : list block) (cu : cursor) (L : block) (hc hf : list block) : Prop :=
+  branch_from L (hc ++ hf) /\ Forall (on_canon canon) hc /\ Forall (off_canon canon) hf /\
+  (cu_step cu <> SUndo -> bref (last (hc ++ hf) L) = cu_blk cu) /\
+  (cu_step cu = SUndo -> exists X, bref X = cu_blk cu /\ branch_from L (hc ++ hf ++ [X]) /\
+     ((on_canon canon X /\ hf = []) \/ (off_canon canon X /\ file_of forked cu (bid X) = Some X))) /\
+  (forall x, In x hf -> file_of forked cu (bid x) = Some x).
+
+(* Cursor mode when the hub does not serve the cursor itself at the start of the stream (the cursor is older
+   than the hub's window: the file-to-live handoff proper; when the hub does serve it the stream is live from
+   the first event and the burst is C05's subject).  The resolver undoes the pending forked blocks, the files
+   bring the canonical blocks, the join continues from the hub.  Outcomes when the stream ends waiting:
+   nothing was delivered (the files do not reach the cursor block yet), or the stream never left the files
+   and the consumer holds the merged blocks above L, or it joined the hub and holds canon above L (from the
+   first block r1 of rest on: a live reorganisation may have added canonical blocks at or below L). *)
+Definition C07_seamless_cursor_files : Prop :=
+  forall (U : list block) (c : jcfg) (w : world) (ps : list (N * N)) (merged_end : N) (canon forked : list block)
+         (cu : cursor) (L : block) (rest hc hf : list block),
+    wf_b U = true -> lib_ok_b LNone U = true ->
+    hub_of_universe U c w ->
+    chain_ok canon -> incl canon U ->
+    let merged := filter (fun b => bnum b <? merged_end) canon in
+    eventual_tip c w canon -> files_agree c w merged ->
+    j_mode c = 1 -> j_cursor c = Some cu -> j_filter c = 0 -> j_stop c = 0 ->
+    0 < j_bundle c -> Forall (fun b => bnum b < file_bound) merged ->
+    (h_ready (w_hub w) = true -> forall evs, blocks_from_cursor (h_f (w_hub w)) cu <> BOk evs) ->
+    from_num (rn (cu_lib cu)) canon = L :: rest -> bref L = cu_lib cu ->
+    cursor_state canon forked cu L hc hf ->
+    let res := stream_run c w ps merged_end merged forked in
+    exists c', cons_fold_aside (mkCons (rev (hc ++ hf)) 0 false) (map as_new (fst res)) = Some c' /\
+               (snd res = JNil ->
+                  fst res = [] \/
+                  rev (cs_stack c') = above (rn (cu_lib cu)) merged \/
+                  exists r1 rest1, rest = r1 :: rest1 /\ from_num (bnum r1) (rev (cs_stack c')) = rest).
